@@ -63,6 +63,25 @@ def evaluated_block(rep, repo, smod, init, rules):
             msg, desc = bad
             rep.violate(rid, smod, init, rid.split('.')[1], f'SimOps.__init__: {msg} - on {desc}', node=init)
     rep.floor('evaluations of the schedule / memory-map block', res['evaluations'], 400)
+    if 'C07.level' in rules:
+        # the evaluation does not model element widths: the integer tables of the block (levels, reference counts, stems, locations, capacities) index and
+        # count lines and ops of arbitrarily large circuits, so a dtype narrower than 32 bits wraps (a wrapped reference count releases memory that is still read)
+        from kvstatic import mapeval
+        WIDE = {"'int32'", "'int64'", "'uint32'", "'uint64'", 'np.int32', 'np.int64', 'np.uint32', 'np.uint64', 'np.intp', 'int', "'int'", "'intp'", 'np.int_'}
+        nt = 0
+        for st in mapeval.block(init):
+            for c in find_all(st, ast.Call):
+                if (call_name(c) or '') in ('np.zeros', 'np.full', 'np.asarray', 'np.array', 'np.empty', 'np.ones'):
+                    dt = next((norm(k.value) for k in c.keywords if k.arg == 'dtype'), None)
+                    if dt is None:
+                        continue
+                    nt += 1
+                    ok = dt in WIDE
+                    rep.ob('C07.level', f'integer table `{norm(c)[:60]}` is at least 32 bits wide', ok)
+                    if not ok:
+                        rep.violate('C07.level', smod, init, c, f'SimOps.__init__: the table `{norm(c)[:80]}` has element type {dt}: levels, reference counts, line indices and memory locations of a '
+                                    f'large circuit do not fit (a wrapped reference count releases memory that is still read; a wrapped level puts a reader into its producer\'s level)', node=c)
+        rep.floor('integer tables of the schedule block with an explicit dtype', nt, 4)
     return True
 
 
